@@ -96,6 +96,27 @@ def lake_build(clean: bool = False) -> tuple[bool, str, float]:
         lock.close()
 
 
+# properties whose theorems read the emitted instruction codes: the enum -> instruction table of the source is
+# *translated* into Lean on every run and `Props/Tables.lean` re-proved against it
+TABLE_PROPS = {"C02", "C06", "C07"}
+
+
+def build_generated_table() -> tuple[bool, str]:
+    """tools/gen_code_table.py (source text of gscrib/codes/gcode_mappings.py -> Gen/CodeTable.lean), then
+    `lake build GscribModel.Props.Tables`.  Not part of the root library: a changed table breaks only this."""
+    lock = open(LEAN / ".build.lock", "w")
+    fcntl.flock(lock, fcntl.LOCK_EX)
+    try:
+        g = subprocess.run([sys.executable, str(VERIF / "tools" / "gen_code_table.py"), str(REPO)], capture_output=True, text=True)
+        if g.returncode != 0:
+            return False, "translator failed: " + (g.stdout + g.stderr)[-1200:]
+        p = subprocess.run(["lake", "build", "GscribModel.Props.Tables"], cwd=LEAN, capture_output=True, text=True)
+        return p.returncode == 0, (p.stdout + p.stderr)[-2500:]
+    finally:
+        fcntl.flock(lock, fcntl.LOCK_UN)
+        lock.close()
+
+
 def props_file(prop: str) -> Path:
     return LEAN / "GscribModel" / "Props" / f"{prop}.lean"
 
@@ -296,6 +317,21 @@ class Run:
                 self.discharged += 1
         if a["forbidden"]:
             self.discharged = 0
+        if self.prop in TABLE_PROPS:
+            okt, logt = build_generated_table()
+            if not okt:
+                self.obligations += 1
+                self.obligation_broken("Tables_step_emits_table", "the model's instruction codes no longer equal the table generated from "
+                                       "gscrib/codes/gcode_mappings.py: " + logt[-1200:])
+            else:
+                at = audit("Tables")
+                self.audit_info["generated_table"] = {"translator": "tools/gen_code_table.py", "axioms": at["theorems"]}
+                for n, ax in at["theorems"].items():
+                    self.obligations += 1
+                    if ax is None or not set(ax) <= ALLOWED_AXIOMS or at["forbidden"]:
+                        self.obligation_broken(n, f"axioms {ax} {at['forbidden'][:3]}")
+                    else:
+                        self.discharged += 1
         if self.thorough:
             mods = [
                 str(f.relative_to(LEAN))[:-5].replace("/", ".")
